@@ -231,7 +231,8 @@ pub fn run_case_full<I: ScanInt>(s: &[u8], offset: usize, scanner: Scanner, buff
     }
     stream.extend_from_slice(s);
     let base = if stale { STALE_PREFIX } else { 0 };
-    let (source, st) = ScriptedSource::new(SourceCfg::new(&stream, grain), vec![]);
+    // in the stale variant the source also scribbles digits behind what it delivers
+    let (source, st) = ScriptedSource::new(SourceCfg::new(&stream, grain).scribble(if stale { Some(b'9') } else { None }), vec![]);
     let res = catch(|| {
         let mut reader = DeferredReader::from_read(source);
         if stale {
